@@ -31,17 +31,16 @@ import (
 const c27 = "C27"
 
 type c27World struct {
-	w       *sim.World
-	l       *sim.Link
-	tmID    string // a real tendermint client on chain 0
-	menu    [][]byte
-	hdr     *ibctm.Header
-	cs      exported.ClientState
-	cons    exported.ConsensusState
-	csBz    []byte
-	consBz  []byte
-	auth    string
-	baseIBC map[string][]byte
+	w      *sim.World
+	l      *sim.Link
+	tmID   string // a real tendermint client on chain 0
+	menu   [][]byte
+	hdr    *ibctm.Header
+	cs     exported.ClientState
+	cons   exported.ConsensusState
+	csBz   []byte
+	consBz []byte
+	auth   string
 }
 
 func getC27World(outer *testing.T) *c27World {
